@@ -59,6 +59,11 @@ pub fn gen_with(rng: &mut Rng, long: bool, clean_restarts: bool) -> Program {
     let mut ops = Vec::new();
     // bias: histories that exercise remembered offsets
     let biased = rng.chance(1, 2);
+    // a quarter of the biased histories: some incremental snapshots are released to run on the snapshot thread while
+    // the following commands execute; nothing exact is promised for a restart right after such a snapshot, but
+    // the next snapshot that completes on its own must again be restored exactly (what the racing one left in
+    // memory -- dirty flags, disk addresses -- is what that snapshot works from)
+    let race_incremental = biased && rng.chance(1, 2);
     for _ in 0..n {
         let db = rng.below(ndbs as u64) as usize;
         let key = KEYS[rng.below(nkeys as u64) as usize].to_string();
@@ -79,6 +84,7 @@ pub fn gen_with(rng: &mut Rng, long: bool, clean_restarts: bool) -> Program {
                 }
             }
             12 => Op::Snapshot { db, reclaim: rng.chance(1, 2) },
+            13 if race_incremental => Op::SnapRace { db, reclaim: false },
             _ => Op::Remove { db, key },
         };
         ops.push(op);
@@ -384,7 +390,7 @@ pub fn execute(prog: Program) -> Outcome {
                         (Some(_), Some(got)) if racy[db] => {
                             // nothing exact is promised for this restart; continue from what was loaded
                             let lv = live_view(&got);
-                            model[db] = lv.iter().map(|(k, v)| (k.clone(), v.0.clone())).collect();
+                            model[db] = lv.iter().filter(|(k, _)| !k.starts_with("$conflicts")).map(|(k, v)| (k.clone(), v.0.clone())).collect();
                             snap_model[db] = Some(model[db].clone());
                             snap[db] = Some(lv);
                             meta[db] = db_meta(&dbs, name);
@@ -443,7 +449,7 @@ pub fn execute(prog: Program) -> Outcome {
                             // never snapshotted: nothing is promised; follow the implementation
                             exists[db] = got.is_some();
                             if let Some(g) = got {
-                                model[db] = live_view(&g).into_iter().map(|(k, v)| (k, v.0)).collect();
+                                model[db] = live_view(&g).into_iter().filter(|(k, _)| !k.starts_with("$conflicts")).map(|(k, v)| (k, v.0)).collect();
                                 meta[db] = db_meta(&dbs, name);
                             }
                         }
